@@ -80,6 +80,13 @@ fn c06_2() {
     }
 }
 
+fn c04() {
+    // `$domain=a` vs `$domain=~a`: identical badfilter identity?
+    let e = engine(&["/adframe.$script,domain=~news.example", "/adframe.$script,domain=news.example,badfilter"], false);
+    let b = blocked(&e, "http://x.com/adframe.js", "http://other.example/", "script");
+    println!("C04-1 `/adframe.$script,domain=~news.example` cancelled by `...domain=news.example,badfilter`: blocked={b} (expected true)");
+}
+
 fn c10_1() {
     let mut e = Engine::default();
     let r = std::panic::catch_unwind(std::panic::AssertUnwindSafe(|| {
@@ -105,6 +112,7 @@ fn main() {
     let all = which.is_empty();
     let want = |n: &str| all || which.iter().any(|w| w == n);
     if want("c01") { c01(); }
+    if want("c04") { c04(); }
     if want("c05") { c05(); }
     if want("c06_1") { c06_1(); }
     if want("c06_2") { c06_2(); }
